@@ -951,6 +951,9 @@ def run(tier, replay=None):
     # is printed by the Display grammars and re-read by the parser tables into the slots it was printed from (shared with C05)
     from . import c05
     c05.roundtrip_obligations(common.program('K0'), rep)
+    # values built by the compile-time macros belong to this property's domain as well: the macro witnesses of C16 (cached per tree)
+    from . import c16
+    c16.witness_family(rep, tier)
     rep.explanation = ('Structural necessary conditions of the model equivalence, decided on every path of every mutator, constructor and validating getter: '
                        'typestate (sorted / duplicate-free / single empty representation) of the invariant fields at every exit, no write to self before an Err return, '
                        'every inserted key/value/attribute/tag is the argument validated against the exact production and normalised as the parser does (shape domain), '
